@@ -31,6 +31,7 @@ def shards(tier):
         {"name": "rand.torch", "mode": "jit", "backend": "torch", "fn": "rand", "n": 400 if q else 10000},
         {"name": "big.np.jit", "mode": "jit", "backend": "np", "fn": "big", "n": 2 if q else 40},
         {"name": "big.torch", "mode": "jit", "backend": "torch", "fn": "big", "n": 1 if q else 10},
+        {"name": "forms.torch", "mode": "jit", "backend": "torch", "fn": "rand", "n": 150 if q else 4000, "forms": 1},
     ]
     if not q:
         out.append({"name": "exh3.np.jit", "mode": "jit", "backend": "np", "fn": "exh", "Ns": [3]})
@@ -281,6 +282,45 @@ def run_rand(shard, rec, B):
                 xg, xp = O.map_image_list(m2[0], m2[1], eg, ep)
                 lg, lp = B.gsps(Mi)
                 rec.check("rot.derived.transform", np.array_equal(lg, xg) and np.array_equal(lp, xp), {"view": "inverse() then rotate then transform", "N": N}, True)
+    # generators that are themselves library results (an element of a list, a product): used several times in a row,
+    # the generator and the list it came from must stay what they were
+    for t in range(max(20, shard["n"] // 20)):
+        N = int(rng.integers(1, 6))
+        Lg = int(rng.integers(2, 5))
+        ggs = np.stack([gen.rand_nonid(rng, N) for _ in range(Lg)])
+        gps = 2 * rng.integers(0, 2, Lg)
+        src = B.PauliList(ggs.copy(), gps.copy())
+        k = int(rng.integers(Lg))
+        how = int(rng.integers(2))
+        if how == 0:
+            Gobj, G, PG = src[k], ggs[k], int(gps[k])
+        else:
+            a_, b_ = gen.rand_string(rng, N), gen.rand_string(rng, N)
+            xg, xp = O.mul(a_, 0, b_, 0)
+            if not xg.any() or int(xp) % 2:
+                continue
+            Gobj, G, PG = B.Pauli(a_, 0) @ B.Pauli(b_, 0), xg, int(xp)
+        gs, ps = gen.rand_list(rng, 6, N), rng.integers(0, 4, 6)
+        PL = B.PauliList(gs.copy(), ps.copy())
+        eg, ep = gs, ps
+        good = True
+        for rep in range(4):
+            ok, _ = rec.attempt("rot.derived_generator", [N, how, rep], lambda: PL.rotate_by(Gobj))
+            if not ok:
+                good = None
+                break
+            eg, ep = O.rot_image(G, PG, eg, ep)
+            lg, lp = B.gsps(PL)
+            if not (np.array_equal(lg, eg) and np.array_equal(lp, ep)):
+                good = False
+                break
+        if good is not None:
+            gg, gp_ = B.gp(Gobj)
+            sg, sp = B.gsps(src)
+            rec.check("rot.derived_generator", good and np.array_equal(gg, G) and gp_ == PG % 4 and np.array_equal(sg, ggs) and np.array_equal(sp, gps % 4),
+                      {"N": N, "generator_from": ["list element", "product"][how], "G": O.show(G, PG), "rep": rep}, True,
+                      expected="4 rotations by the same generator object = identity; generator and its source list unchanged",
+                      observed={"generator_now": O.show(gg, gp_), "list_now": [O.show(a, b) for a, b in zip(sg, sp)]})
     # unusual but legal argument forms: zero-length lists, masks given as python lists / tuples of bools
     for t in range(12):
         N = int(rng.integers(1, 6))
@@ -346,16 +386,16 @@ def run_big(shard, rec, B):
                 check_all_kinds(rec, B, G, PG, qubits, N, gs, ps, rng, dense=False)
             if N <= 70:
                 check_map_state(rec, B, gen.rand_nonid(rng, N), 2 * int(rng.integers(2)), list(range(N)), N, rng)
-        if t == 0 and B.name == "np":
+        if t == 0:
             # very long lists on few qubits, and tableaux / maps with >= 1024 rows (N >= 512)
-            for L in gen.HUGE_LS:
+            for L in (gen.HUGE_LS if B.name == "np" else [4097, 5000, 9000, 65537]):
                 N = int(rng.integers(2, 5))
                 gs = rng.integers(0, 2, (L, 2 * N))
                 ps = rng.integers(0, 4, L)
                 for masked in (False, True):
                     qubits = list(range(N)) if not masked else gen.rand_subset(rng, N, N - 1)
                     check_all_kinds(rec, B, gen.rand_nonid(rng, len(qubits)), 2 * int(rng.integers(2)), qubits, N, gs, ps, rng, dense=False)
-            for N in gen.HUGE_NS:
+            for N in (gen.HUGE_NS if B.name == "np" else [256, 513]):
                 G, PG = gen.rand_nonid(rng, N), 2 * int(rng.integers(2))
                 tg, tp, r = O.random_tableau(rng, N, nrot=6)
                 eg, ep = O.rot_image(G, PG, tg, tp)
